@@ -54,6 +54,16 @@ SPEC = {
              "of transport failure also aimed at steps without postprocessors -, body 4000 bytes longer than usual (aimed at steps with a size "
              "assertion), body without the asserted marker, "
              "missing asserted header, captured JSON object turned into a string so that a later template cannot be executed). "
+             "Added after seeded defect C15/m15: the connection closed without a response also where the gun keeps connections alive "
+             "(disable-keep-alives: false), i.e. on a connection taken from the idle pool - a later step of a shot or the first step of a "
+             "later shot: 22 % of the faults are aimed at a POST / PUT / DELETE request that is not the first of the run, and connections "
+             "are then kept alive in three cases of four; the step must be reported failed, the shot must end and the target must have "
+             "received the request exactly once (request log and sample stream are compared one by one). net/http's Transport re-sends "
+             "replayable requests (GET / HEAD) by itself when a REUSED connection is closed before any byte of an answer - below the "
+             "gun, the property is silent about it -, so with keep-alive the target drops connections only for the first request of "
+             "the run (fresh connection) and for POST / PUT / DELETE (never re-sent); a close fault that turns out to hit a GET / HEAD on "
+             "a kept-alive connection is void (Case.reply), and cases with close faults planned at GET / HEAD positions run without "
+             "keep-alive as before. "
              "TestScenarioExecution: one instance, whole multiples of sum(w)/gcd shots; the reference interpreter is replayed against "
              "the request log and the sample stream step by step; the engine's provider is wrapped by a pass-through recorder and the "
              "scenario ammo of every Acquire (exported fields of the http/scenario gun's ammo: step names, Sleep per step, "
@@ -67,6 +77,10 @@ SPEC = {
                "TestScenarioExecution/ammo_pauses_checked": 0.5,
                "TestScenarioExecution/repeated_request_pause_argument_differs": 0.2,
                "TestScenarioExecution/fail_transport_body_cut": 0.08,
+               "TestScenarioExecution/fail_transport_close_on_reused_connection": 0.06,
+               "TestScenarioExecution/fail_transport_close_on_reused_connection_later_step": 0.035,
+               "TestScenarioExecution/fail_transport_close_on_reused_connection_first_step_of_later_shot": 0.02,
+               "TestScenarioExecution/fail_transport_close_on_reused_connection_before_last_step": 0.045,
                "TestScenarioExecution/fail_transport_step_without_postprocessors": 0.06,
                "TestScenarioExecution/fail_body_cut_step_without_postprocessors": 0.04,
                # classes added after seeded defect C15/m7 (size-only assertion judged on an answer without Content-Length)
